@@ -399,3 +399,81 @@ func init() {
 		return App("str.prefixof", SBool, args[1].(*Term), args[0].(*Term))
 	}
 }
+
+// ---- goresctrl idset.IDSet (map[ID]struct{}) -------------------------------------------------------------
+// Trusted models of the four small methods the repository uses on id sets; they are the map operations of
+// the library source (Has: all listed ids are keys and the set is non-nil; Add/Del: map update/delete per id;
+// Size: len), for variadic argument lists of statically known length.
+func init() {
+	const is = "(github.com/intel/goresctrl/pkg/utils.IDSet)."
+	mapT := func(ex *Exec, instr ssa.Instruction) *types.Map {
+		if ip, ok := ex.eng.pkgs["github.com/intel/goresctrl/pkg/utils"]; ok {
+			return types.Unalias(ip.Types.Scope().Lookup("IDSet").Type()).Underlying().(*types.Map)
+		}
+		panic(unsupported("idset model: package github.com/intel/goresctrl/pkg/utils not loaded"))
+	}
+	ids := func(ex *Exec, st *State, mt *types.Map, arg Value, instr ssa.Instruction) []*Term {
+		if t, isT := arg.(*Term); isT && t.Sort == ex.vc.SortOf(mt.Key()) {
+			// called from a specification with a single id (not packed into a slice)
+			return []*Term{t}
+		}
+		elems, ok := ex.variadicElems(st, arg, mt.Key(), instr)
+		if !ok {
+			ex.unsupportedAt(instr, "idset method with a variadic argument of unknown length")
+		}
+		return elems
+	}
+	note := func(ex *Exec) {
+		ex.vc.note("trusted model of goresctrl idset.IDSet methods Has/Add/Del/Size (the map operations of the library source)")
+	}
+	models[is+"Has"] = func(ex *Exec, fr *frame, st *State, reach *Term, args []Value, instr ssa.Instruction) Value {
+		note(ex)
+		mt := mapT(ex, instr)
+		s := args[0].(*Term)
+		cs := []*Term{Not(Eq(s, IntLit(0)))}
+		for _, id := range ids(ex, st, mt, args[1], instr) {
+			cs = append(cs, Select(ex.mapDom(st, mt, s), id))
+		}
+		return And(cs...)
+	}
+	models[is+"Add"] = func(ex *Exec, fr *frame, st *State, reach *Term, args []Value, instr ssa.Instruction) Value {
+		note(ex)
+		mt := mapT(ex, instr)
+		s := args[0].(*Term)
+		for _, id := range ids(ex, st, mt, args[1], instr) {
+			if ex.safety {
+				ex.safeOblige(fr, reach, Not(Eq(s, IntLit(0))), "nilmap", instr)
+			}
+			ex.vc.Assume(reach, Not(Eq(s, IntLit(0))))
+			ex.mapStore(st, mt, s, id, ex.vc.Zero(mt.Elem()))
+		}
+		return nil
+	}
+	models[is+"Del"] = func(ex *Exec, fr *frame, st *State, reach *Term, args []Value, instr ssa.Instruction) Value {
+		note(ex)
+		mt := mapT(ex, instr)
+		s := args[0].(*Term)
+		for _, id := range ids(ex, st, mt, args[1], instr) {
+			ex.mapDelete(st, mt, s, id)
+		}
+		return nil
+	}
+	models[is+"Size"] = func(ex *Exec, fr *frame, st *State, reach *Term, args []Value, instr ssa.Instruction) Value {
+		note(ex)
+		mt := mapT(ex, instr)
+		s := args[0].(*Term)
+		return Ite(Eq(s, IntLit(0)), ex.vc.IntConst(0), ex.mapLen(st, mt, s))
+	}
+	mm := func(ex *Exec, ms *modSet, fn *ssa.Function) {
+		mt := types.Unalias(fn.Signature.Recv().Type()).Underlying().(*types.Map)
+		d, vv, l, ks, vs := ex.mapComps(mt)
+		ms.add(d, ArraySort(SInt, ArraySort(ks, SBool)))
+		ms.add(vv, ArraySort(SInt, ArraySort(ks, vs)))
+		ms.add(l, ArraySort(SInt, ex.vc.IntSort()))
+	}
+	modelModsFn[is+"Add"] = mm
+	modelModsFn[is+"Del"] = mm
+}
+
+// modelModsFn: like modelMods, for models whose written components depend on the callee's signature.
+var modelModsFn = map[string]func(ex *Exec, ms *modSet, fn *ssa.Function){}
